@@ -209,6 +209,12 @@ class Run:
                 ctx.report('name-request', 'exporter could not acquire its well-known name: %r' % out.results, w, case)
                 return False
             dest = WELL_KNOWN
+        if sc.methods2 and sc.idx % 2 and 'introspect' in sc.proxy_mode:
+            # the calling process already knows the exporter's FIRST interface (same definition, registered) but not the
+            # second: introspection reuses the known one and must still learn the other completely
+            I.DBusInterface(sc.iface_name, *[I.Method(m, arguments=s_['in'], returns=s_['out'])
+                                             for m, s_ in sorted(sc.methods.items())])
+            ctx.count('first_interface_already_known')
         proxies = []
         for i, c in enumerate(callers):
             if sc.proxy_mode[i] == 'explicit':
